@@ -15,6 +15,10 @@ open RdfModel
 #print axioms RdfModel.C18.encoder_base_resource
 #print axioms RdfModel.C18.pipe_preserves_ttl_plain
 #print axioms RdfModel.C18.pipe_preserves_ttl_resources_partial
+#print axioms RdfModel.C18.ttl_resources_writer
+#print axioms RdfModel.C18.pipe_ttl_assign_link
+#print axioms RdfModel.C18.pipe_preserves_ttl_assign
+#print axioms RdfModel.C18.pipe_preserves_ttl_resources_holds
 #print axioms RdfModel.C18.pipe_preserves_rdfjson
 #print axioms RdfModel.C18.pipe_rdfjson_params
 #print axioms RdfModel.C18.pipe_preserves_nq_params
@@ -22,3 +26,5 @@ open RdfModel
 #print axioms RdfModel.C18.Example.ttl_roundtrip
 #print axioms RdfModel.C18.Example.rj_roundtrip
 #print axioms RdfModel.C18.Example.Res.ttl_resources_roundtrip
+#print axioms RdfModel.C18.Example.Nest.ttl_resources_full
+#print axioms RdfModel.C18.Example.Nest.assign_ok
